@@ -229,3 +229,23 @@ def granularity_source():
     for ut in ('2:00', '2:07', '1:59:59', '0:00:01', '2:07s', '2:07u'):
         add('UNTIL=' + ut, base_rules, ['1:00\t@P\tX%%sT\t2010 Jun 15 %s' % ut, '2:00\t-\tYYT'])
     return out
+
+def dense_policies():
+    """-> [(family, signature, description, text, zone)] policies with n = 3..12 transitions per year (one rule per month, which
+    is all the documented basic constraints ask for), single era and a two-era chain: the transition buffers of the two
+    processors (8 pool entries / 5 cache slots). 16 zones = one per shard, so that a crash costs nothing else."""
+    months = ['Jan', 'Feb', 'Mar', 'Apr', 'May', 'Jun', 'Jul', 'Aug', 'Sep', 'Oct', 'Nov', 'Dec']
+    out = []
+    for n in (3, 4, 5, 6, 7, 8, 10, 12):
+        for shape in ('one-era', 'two-eras'):
+            k = len(out); z, p = 'D/d%d' % k, 'D%d' % k
+            lines = []
+            for i in range(n):
+                lines.append('Rule\t%s\t1990\tmax\t-\t%s\t15\t2:00\t%s\t%s' % (p, months[(i * 12) // n], '1:00' if i % 2 == 0 else '0', 'D' if i % 2 == 0 else 'S'))
+            if shape == 'one-era':
+                lines.append('Zone\t%s\t1:00\t%s\tX%%sT' % (z, p))
+            else:
+                lines.append('Zone\t%s\t1:00\t%s\tX%%sT\t2010' % (z, p))
+                lines.append('\t\t\t2:00\t%s\tY%%sT' % p)
+            out.append(('dense', 'n=%d' % n, '%d transitions per year, %s' % (n, shape), '\n'.join(lines), z))
+    return out
